@@ -114,6 +114,12 @@ def run(prop, tier, rule):
       rep.behaviours_replayed += 1
   finally:
     P.teardown()
+  if prop == 'C15':
+    # skip_unknown under dynamic registration (GinDynReg): "unknown" = not provided by this file's own imports, whatever
+    # earlier files registered
+    from ginverif.checks import common_dynreg
+    common_dynreg.run_into(rep, tier, 'C15', focus=lambda c: c['skip']['mode'] != 'false',
+                           budget=300 if tier == 'quick' else 4000, main_sim=500 if tier == 'quick' else 6000)
   foc = [c for f, c, _ in chosen if f]
   if foc:
     c = foc[0]
@@ -126,6 +132,9 @@ def replay(prop, path):
   with open(path) as fh:
     blob = json.load(fh)
   r = blob['replay']
+  if r.get('kind') == 'dynreg-case':
+    from ginverif.checks import common_dynreg
+    return common_dynreg.replay(prop, path)
   try:
     if r.get('entry') is not None and r.get('clause') == 'entry-point':
       d = P.run_entry(r['case'], r['entry'], r['salt'])
